@@ -52,7 +52,7 @@ func (s step) String() string {
 
 var stepKinds = []string{"connect", "bitfield", "have", "haveall", "havenone", "donthave", "unchoke", "choke",
 	"answer", "answer", "answer", "answer-short", "answer-empty", "answer-long", "answer-misplaced", "answer-unrequested",
-	"reject", "sleep", "sleep", "close", "want", "want", "unwant", "evict", "close+tick", "connect+close"}
+	"reject", "sleep", "sleep", "close", "want", "want", "unwant", "evict", "close+tick", "connect+close", "adv-burst", "adv-burst"}
 
 type world struct {
 	x       *sim.Tor
@@ -229,6 +229,35 @@ func run(rt *rapid.T, steps []step, g sim.Geometry) (fail string, w *world) {
 			}
 			m.r.Send(ref.Msg{Kind: ref.KBitfield, Data: bf})
 			m.have, m.haveAll = nh, false
+		case "adv-burst":
+			// a bitfield and several have / don't-have messages in one segment:
+			// the peer handles them back to back, before the torrent has looked
+			// at the first notification
+			if !connected {
+				continue
+			}
+			bf := make([]byte, (x.N+7)/8)
+			nh := map[int]bool{}
+			for k := 0; k < x.N; k++ {
+				if (s.A>>uint(k%16))&1 == 1 {
+					bf[k/8] |= 0x80 >> (k % 8)
+					nh[k] = true
+				}
+			}
+			raw := ref.Encode(ref.Msg{Kind: ref.KBitfield, Data: bf})
+			for j := 0; j < 3; j++ {
+				k := (i + j*3) % x.N
+				if (s.A>>uint(16+j))&1 == 0 {
+					raw = append(raw, ref.Encode(ref.Msg{Kind: ref.KHave, Index: uint32(k)})...)
+					nh[k] = true
+				} else {
+					raw = append(raw, ref.Encode(ref.Msg{Kind: ref.KExtended, Sub: 3, X: ref.XDontHave, Index: uint32(k)})...)
+					delete(nh, k)
+				}
+			}
+			m.r.SendRaw(raw)
+			m.have, m.haveAll = nh, false
+			w.lab("advertise-burst")
 		case "have":
 			if !connected {
 				continue
